@@ -37,6 +37,14 @@ pub fn cells(tier: Tier) -> Vec<CellPlan> {
     h.cfg.hist = true;
     h.env = Env::full();
     add(h, 2, 3, 3, 4, 2.0);
+    // ... with entities that carry both markers, only the marker registered later (after the
+    // older marker's functions had been set), or none
+    let mut h = cells::mutations("C02");
+    h.name = "c02-mut-hist-mixed".into();
+    h.cfg.hist = true;
+    h.cfg.hist_mixed = true;
+    h.env = Env::full();
+    add(h, 1, 2, 3, 4, 1.0);
     add(cells::three_comps("C02", 1), 1, 2, 2, 2, 1.0);
     add(cells::three_comps("C02", 2), 1, 1, 2, 2, 1.0);
     add(cells::refused_value("C02"), 1, 2, 3, 4, 1.0);
@@ -44,6 +52,36 @@ pub fn cells(tier: Tier) -> Vec<CellPlan> {
     let mut r = cells::reinsert("C02");
     r.env = Env::full();
     add(r, 2, 3, 3, 4, 2.0);
+    // A second client is authorized on a frame without a tick (custom authorization), between
+    // mutations of an entity the first client already has: whatever the server sends because of
+    // the newcomer, the first client's values at its confirmed tick stay the server's.
+    {
+        use crate::events::*;
+        let mut cfg = Cfg::default();
+        cfg.events = true;
+        cfg.auth = Auth::Custom;
+        cfg.clients = vec![1200, 1200];
+        let c = EvCell {
+            name: "c02-late-auth".into(),
+            property: "C02",
+            cfg,
+            connect_at_start: vec![0, 1],
+            init: vec![Op::Spawn(0, cells::AB)],
+            alphabet: vec![
+                EvOp::Nop,
+                EvOp::Authorize(0),
+                EvOp::Authorize(1),
+                EvOp::World(Op::Mut(0, TA)),
+                EvOp::World(Op::Mut(0, TB)),
+            ],
+            rounds: if q { 4 } else { 5 },
+            tick_choice: true,
+            env: EvEnv { hold_updates: 0, hold_events: false, reorder: false, drop_unreliable: false, hold_client_events: false, hold_mutations: false, hold_acks: false, update_latency: 0, update_batch: 0 },
+            oracles: EvOracles { c09: true, convergence: true, ..Default::default() },
+            closure_rounds: 4,
+        };
+        v.push(plan(c, 0, 1.0));
+    }
     v
 }
 
